@@ -10,8 +10,9 @@ open ZodbModel.Mvcc
 structure Glob (log : List Txn) (infl : Option Infl) (next n : Nat) : Prop where
   sorted : Sorted log
   loglt : ∀ T ∈ log, T.tid < next
+  next_pos : 0 < next
   infl_ok : ∀ f, infl = some f → 0 < f.tid ∧ f.tid < next ∧ (∀ T ∈ log, T.tid < f.tid) ∧
-      (f.phase ≠ .finishing → f.delivered = []) ∧ (∀ j ∈ f.delivered, j < n)
+      (f.phase ≠ .finishing → f.delivered = []) ∧ (∀ j ∈ f.delivered, j < n ∧ f.who ≠ some j)
 
 /-- per-instance part.  (A) = a1,a2   (B) = b0..b6   (C) = c1..c4,s1,s2   (D) is the guard structure
     of `step` (pollRead / storage reads are disabled inside a finish section). -/
@@ -55,9 +56,10 @@ structure Inv (s : Sys) : Prop where
   hist : ∀ h, h < s.nh → HistInv s.log s.infl s.next (s.hists h)
 
 theorem inv_init : Inv init := by
-  refine ⟨⟨?_, ?_, ?_⟩, ?_, ?_⟩
+  refine ⟨⟨?_, ?_, ?_, ?_⟩, ?_, ?_⟩
   · simp [init]
   · intro T hT; simp [init] at hT
+  · simp [init]
   · intro f hf; simp [init] at hf
   · intro i hi; simp [init] at hi
   · intro h hh; simp [init] at hh
@@ -69,8 +71,8 @@ theorem headTid_lt_infl {log infl next n} (g : Glob log infl next n) {f : Infl} 
   obtain ⟨h0, _, h2, _, _⟩ := g.infl_ok f hf
   exact headTid_lt h0 h2
 
-theorem headTid_lt_next {log infl next n} (g : Glob log infl next n) (hn : 0 < next) :
-    headTid log < next := headTid_lt hn g.loglt
+theorem headTid_lt_next {log infl next n} (g : Glob log infl next n) :
+    headTid log < next := headTid_lt g.next_pos g.loglt
 
 /-- the key fact of `pollApply`: nothing published is at or above the new bound -/
 theorem all_below_new_start {log infl next i x} (v : InstInv log infl next i x) {L : Nat}
